@@ -531,7 +531,12 @@ def gen_floor(rng, idx, big=False, groups=True, congested=False, serial=False):
     for k, (t, op) in enumerate(sched):
         L.append(['ext', 'sched', str(t), '-2', str(k), str(pick_prio(rng))])
     horizon = rng.choice([48, 64, 96, 128]) if not big else rng.choice([128, 200])
-    if rng.random() < 0.3:
+    if serial and rng.random() < 0.4:
+        # "every horizon": a horizon of exactly 0 (everything with entry time 0 must have happened when the call
+        # returns), and horizons split over several calls some of which have length 0 (before the first event, at
+        # an arbitrary instant, twice in a row, at the very end)
+        L += _serial_runs(rng, horizon)
+    elif rng.random() < 0.3:
         a = rng.choice([8, 16, 20, 33])
         L.append(['run', str(a)])
         L.append(['run', str(horizon - a if horizon > a else 8)])
@@ -539,6 +544,31 @@ def gen_floor(rng, idx, big=False, groups=True, congested=False, serial=False):
         L.append(['run', str(horizon)])
     L.append(['end'])
     return L
+
+
+def _serial_runs(rng, horizon):
+    """run lines of a serial scenario whose horizon is 0 or is split into pieces, some of length 0"""
+    c = rng.random()
+    if c < 0.2:
+        return [['run', '0'] for _ in range(rng.choice([1, 1, 2]))]
+    pieces = []
+    left = horizon
+    for _ in range(rng.choice([1, 2, 2, 3])):
+        a = rng.choice([1, 4, 8, 16, 20, 33])
+        if a < left:
+            pieces.append(a)
+            left -= a
+    pieces.append(left)
+    out = []
+    if rng.random() < 0.7:
+        out += [['run', '0'] for _ in range(rng.choice([1, 1, 2]))]
+    for i, a in enumerate(pieces):
+        out.append(['run', str(a)])
+        if rng.random() < 0.35:
+            out.append(['run', '0'])
+    if not any(r == ['run', '0'] for r in out):
+        out.insert(0, ['run', '0'])
+    return out
 
 
 def gen_floor_congested(rng, idx, big=False):
@@ -549,7 +579,56 @@ def gen_serial(rng, idx, big=False):
     return gen_floor(rng, idx, big, groups=False, serial=True)
 
 
-FAMILIES.update({'floor': gen_floor, 'floorc': gen_floor_congested, 'serial': gen_serial})
+def gen_serial_topup(rng, idx, big=False):
+    """Serial line whose source has a small finite budget that is topped up (existing op `adjust`, positive amounts
+    only): from a scheduled event shortly after the last supply / inside the source's tail cycle / exactly at its
+    end / long after the whole line has run dry, and from outside between two run calls.  A part that becomes
+    permitted at tau leaves the source at max(previous departure + c_0, tau, space downstream)."""
+    L = gen_floor(rng, idx, big, groups=False, serial=True)
+    L = [l for l in L if l[0] not in ('run', 'end')]
+    si = next(i for i, l in enumerate(L) if l[:3] == ['asset', 'dev', 'source'])
+    cyc = rng.choice([0, 2, 3, 4, 4, 8])
+    bud = rng.choice([0, 1, 1, 2, 3])
+    L[si] = [t for t in L[si] if not t.startswith(('cyc=', 'budget='))] + [f'cyc={cyc}', f'budget={bud}']
+    delays = []
+    for l in L:
+        if l[:2] == ['asset', 'dev']:
+            delays += [int(t.split('=')[1]) for t in l[3:] if t.startswith(('cyc=', 'delay='))]
+    dry = bud * max(delays + [1]) + sum(delays)        # by then every part of the first budget has left the source
+    sched = []
+    t = bud * cyc
+    for _ in range(rng.randint(1, 3)):
+        if rng.random() < 0.5:
+            t += rng.choice([0, 1, 2, max(cyc - 1, 0), cyc, cyc + 1, 2 * cyc + 1, 17])
+        else:
+            t = max(t, dry) + rng.choice([0, 1, 5, 16])
+        sched.append((t, ['adjust', '0', str(rng.choice([1, 1, 2, 3]))]))
+        t += rng.choice([0, 1, cyc])
+    between = None
+    if rng.random() < 0.4:
+        # the last top-up comes from outside, between two run calls
+        between = sched.pop()
+    _sched_ops(L, rng, sched)
+    end = max([x[0] for x in sched] + [between[0] if between else 0]) + rng.choice([16, 48, 64])
+    if between is not None:
+        if rng.random() < 0.3:
+            L.append(['run', '0'])
+        L.append(['run', str(between[0])])
+        L.append(['ext'] + between[1])
+        if rng.random() < 0.3:
+            L.append(['run', '0'])
+        L.append(['run', str(end - between[0])])
+    elif rng.random() < 0.3:
+        a = rng.choice([8, 16, 20, 33])
+        L.append(['run', str(a)])
+        L.append(['run', str(max(end - a, 8))])
+    else:
+        L.append(['run', str(end)])
+    L.append(['end'])
+    return L
+
+
+FAMILIES.update({'floor': gen_floor, 'floorc': gen_floor_congested, 'serial': gen_serial, 'serialq': gen_serial_topup})
 
 
 # ----------------------------------------------------------------------------------------- sys
@@ -1181,7 +1260,8 @@ def gen_floor_budget(rng, idx, big=False):
 def gen_floor_rework(rng, idx, big=False):
     """Rework loop: source -> buffer -> machine (its finish callback adds value) -> two complementary gates:
     'done' (value >= limit) to the sink, 'rework' (value < limit) back into the buffer; low traffic, so the
-    same part meets the same gate again with a different value and nothing else in between."""
+    same part meets the same gate again with a different value and nothing else in between; in half of the lines the
+    exit is busy or blocked now and then (the finished part is refused there and offered to the rework gate again)."""
     L = _hdr(rng, idx)
     add = rng.choice([3, 5])
     limit = add * rng.choice([2, 2, 3])
@@ -1192,11 +1272,123 @@ def gen_floor_rework(rng, idx, big=False):
     done, rework = (3, 4) if rng.random() < 0.5 else (4, 3)
     for g in (3, 4):
         L.append(['asset', 'dev', 'gate', 'up=2', f'pred=vge:{limit}' if g == done else f'pred=vlt:{limit}'])
-    L.append(['asset', 'dev', 'sink', f'up={done}', 'cyc=0', 'collect=1'])
+    # half of the lines have an exit that is not always free (a slow sink, or the exit gate / the sink blocked for a
+    # while): a finished part then finds its exit refused and is offered to the rework gate it has just come through
+    slow = rng.random() < 0.5
+    L.append(['asset', 'dev', 'sink', f'up={done}', f'cyc={rng.choice([6, 12, 20, 40]) if slow and rng.random() < 0.7 else 0}',
+              'collect=1'])
     L.append(['wire', '1', f'0,{rework}'])
+    if slow:
+        sched = []
+        for _ in range(rng.randint(0, 3)):
+            t = rng.randrange(4, 60)
+            d = rng.choice([done, 5])
+            sched.append((t, ['block', str(d), '1']))
+            sched.append((t + rng.choice([3, 7, 12, 25]), ['block', str(d), '0']))
+        _sched_ops(L, rng, sched)
     L.append(['run', str(rng.choice([64, 96, 160]))])
     L.append(['end'])
     return L
+
+
+def gen_floor_cyclechange(rng, idx, big=False):
+    """Cycle time changed under a held part: several feeders (so that somebody is refused meanwhile) into single-slot
+    devices and a sink whose cycle time is set to another value -- often to 0 -- or offset for one cycle WHILE a part
+    is held, and zero-cycle devices / sinks that get a positive one-shot offset (their next cycle is not instantaneous
+    although their cycle time reads 0 when it ends); half of the scenarios also set cycle times and give one-shot offsets
+    from outside before the first run.  Whatever the cycle time reads at the end of a cycle, the slot is free then and
+    the refused upstreams have to be told; a cycle lasts what cycle time + offset were when it started."""
+    L = _hdr(rng, idx)
+    B = FloorBuilder(rng)
+    srcs = [B.dev('source', cyc=rng.choice([1, 2, 3, 4, 6]), budget=rng.choice(['inf', 'inf', '4', '8']), pval=0)
+            for _ in range(rng.choice([1, 2, 2, 3]))]
+    prev = srcs
+    mids = []
+    if rng.random() < 0.5:
+        for _ in range(rng.choice([1, 2, 2])):
+            mids.append(B.dev(rng.choice(['handler', 'processor']), up=','.join(map(str, rng.sample(prev, rng.randint(1, len(prev))))),
+                              cyc=rng.choice([0, 0, 2, 4, 8])))
+        for x in srcs:
+            if not any(str(x) in [t for t in B.L[m] if t.startswith('up=')][0][3:].split(',') for m in mids):
+                B.L[mids[0]] = [t if not t.startswith('up=') else t + f',{x}' for t in B.L[mids[0]]]
+        prev = mids
+    sink = B.dev('sink', up=','.join(map(str, prev)), cyc=rng.choice([0, 0, 0, 4, 8]), collect=rng.choice([0, 1]))
+    L += B.L
+    sched = []
+    for _ in range(rng.randint(2, 6)):
+        t = rng.randrange(1, 48)
+        d = rng.choice(mids + [sink, sink])
+        if rng.random() < 0.5:
+            sched.append((t, ['offset', str(d), str(rng.choice([2, 4, 8, 12, -2]))]))
+        else:
+            sched.append((t, ['setcycle', str(d), str(rng.choice([0, 0, 4, 8]))]))
+    _sched_ops(L, rng, sched)
+    if rng.random() < 0.5:
+        # the same operations from outside BEFORE the first run (the devices are not initialised yet): a one-shot
+        # offset given then counts for the first cycle of a source / handler / machine / sink
+        for _ in range(rng.randint(1, 4)):
+            d = rng.choice(srcs + mids + [sink, sink])
+            if rng.random() < 0.7:
+                L.append(['ext', 'offset', str(d), str(rng.choice([3, 5, 8, 10, -2]))])
+            else:
+                # (never 0 for a source: with an unlimited budget it would supply without end at one instant)
+                L.append(['ext', 'setcycle', str(d), str(rng.choice([2, 6] if d in srcs else [0, 2, 6]))])
+    horizon = rng.choice([64, 96])
+    if rng.random() < 0.25:
+        a = rng.choice([0, 5, 16])
+        L.append(['run', str(a)])
+        if rng.random() < 0.5:
+            L.append(['ext', 'offset', str(rng.choice(srcs + mids + [sink])), str(rng.choice([4, 9]))])
+        L.append(['run', str(horizon - a)])
+    else:
+        L.append(['run', str(horizon)])
+    L.append(['end'])
+    return L
+
+
+FAMILIES['floork'] = gen_floor_cyclechange
+
+
+def gen_floor_values(rng, idx, big=False):
+    """Value changes at every station INCLUDING the sinks: receive-part callbacks (table-driven: add value, set quality,
+    set cycle time, one-shot offset) on handlers, machines, buffers and on the sinks themselves (final inspection that
+    marks a part up or down the moment it is received), finish callbacks on machines, part values of both signs,
+    single parts and batches, collecting and non-collecting sinks with and without a cycle time."""
+    L = _hdr(rng, idx)
+    B = FloorBuilder(rng)
+    batches = rng.random() < 0.2
+
+    def vcb():
+        return f'{rng.choice(["-", "-", "-", "4"])}:{rng.choice([0, 0, 0, 2])}:{rng.choice([-3, -1, 1, 2, 5])}:{rng.choice(["-", "-", "0", "2"])}'
+    prev = [B.dev('source', cyc=rng.choice([2, 4, 8]), budget=rng.choice(['inf', '3', '6']), pval=rng.choice([0, 5, 7, -4]),
+                  pqual=rng.choice([1, 3]), batchof=(rng.choice([2, 3]) if batches else 0))
+            for _ in range(rng.choice([1, 1, 2]))]
+    for _ in range(rng.choice([0, 1, 1, 2])):
+        kind = rng.choice(['handler', 'processor', 'processor', 'buffer'])
+        kw = dict(up=','.join(map(str, prev)))
+        if kind == 'buffer':
+            kw.update(cap=rng.choice(['inf', '2', '4']), delay=rng.choice([0, 4]))
+        else:
+            kw['cyc'] = rng.choice([0, 2, 4, 8])
+        if rng.random() < 0.5:
+            kw['recvcb'] = ','.join(vcb() for _ in range(rng.choice([1, 1, 2])))
+        if kind == 'processor' and rng.random() < 0.4:
+            kw['fincb'] = vcb()
+        prev = [B.dev(kind, **kw)]
+    for j in range(rng.choice([1, 1, 2])):
+        kw = dict(up=','.join(map(str, prev)), cyc=rng.choice([0, 0, 4, 8]), collect=rng.choice([0, 1]))
+        if rng.random() < 0.75:
+            kw['recvcb'] = ','.join(vcb() for _ in range(rng.choice([1, 1, 2])))
+        B.dev('sink', **kw)
+    L += B.L
+    L.append(['run', str(rng.choice([48, 64, 96]))])
+    if rng.random() < 0.3:
+        L.append(['run', str(rng.choice([8, 24]))])
+    L.append(['end'])
+    return L
+
+
+FAMILIES['floorv'] = gen_floor_values
 
 
 def gen_floor_nestbat(rng, idx, big=False):
